@@ -9,7 +9,9 @@ NAME="${SEED_NAME:-$ID}"
 WT="/tmp/wt-$ID"
 OUT="/verif/seeded/$NAME"
 PROPS="${*:-${ID:0:3}}"
+PHASE="${SEED_PHASE:-all}"   # all | confirm (worktree only) | check (apply to /repo and run the checks)
 mkdir -p "$OUT"
+if [ "$PHASE" != check ]; then
 cd "$WT" || exit 2
 git diff -- src > "$OUT/patch.diff"
 [ -s "$OUT/patch.diff" ] || { echo "no source change in $WT"; exit 2; }
@@ -28,6 +30,8 @@ echo "== demonstration without the change"
 cargo test --offline --test "$DEMONAME" 2>&1 | grep -E "^test result|FAILED|panicked" | head -5
 git apply "$OUT/patch.diff"
 } 2>&1 | tee "$OUT/confirm.log"
+fi
+[ "$PHASE" = confirm ] && exit 0
 cd /verif
 git -C /repo apply "$OUT/patch.diff" || { echo "patch does not apply to /repo"; exit 2; }
 # evidence written while a seeded change is applied is not evidence about /repo: keep the real files aside
